@@ -832,6 +832,26 @@ func ruleTAB4(w *World) []Ob {
 	} else {
 		l.bad(p.FuncID(fn), "error lists are the computed lists", p.Pos(fn.Pos()), "the verify error does not carry extra/missing in the fields of the same meaning ("+strings.Join(sortedKeys(carries), ", ")+")", "verdict")
 	}
+	// the directory walk visits everything: its callback never prunes (fs.SkipDir / fs.SkipAll)
+	if vr := p.Func("(*gtree.defaultVerifierSimple).verifyRoot"); vr != nil {
+		for _, cb := range vr.AnonFuncs {
+			bad := ""
+			allInstrs(cb, func(in ssa.Instruction) {
+				r, ok := in.(*ssa.Return)
+				if !ok || len(rr(r)) != 1 {
+					return
+				}
+				if g := globalName(rr(r)[0]); g == "SkipDir" || g == "SkipAll" {
+					bad = "returns fs." + g + " at " + p.InstrPos(r)
+				}
+			})
+			if bad != "" {
+				l.bad(p.FuncID(cb), "walk callback never prunes", p.Pos(cb.Pos()), "the WalkDir callback "+bad+": entries below the pruned directory are never compared, so extra paths go unreported", "sets")
+			} else {
+				l.ok(p.FuncID(cb), "walk callback never prunes", p.Pos(cb.Pos()), "no fs.SkipDir / fs.SkipAll result", true, "sets")
+			}
+		}
+	}
 	// verifyRoot: which list is which — extra = on disk ∧ not in markdown; missing = in markdown ∧ not on disk
 	if vr := p.Func("(*gtree.defaultVerifierSimple).verifyRoot"); vr != nil {
 		okAll := true
@@ -909,6 +929,12 @@ func ruleTAB6(w *World) []Ob {
 			if tags == nil {
 				l.undecided("gtree."+tn.typ, "struct tags", "-", "type not found", "tags")
 				continue
+			}
+			// the library encoder must see the plain struct: no hand-written (un)marshalling methods
+			if ms := customMarshalMethods(pp, tn.typ); len(ms) > 0 {
+				l.bad("gtree."+tn.typ, "no custom marshalling", "-", "the encoded node type defines "+strings.Join(ms, ", ")+": quoting of hostile names is then no longer the standard encoder's", "tags")
+			} else {
+				l.ok("gtree."+tn.typ, "no custom marshalling", "-", "encoding is left to the library encoder", false, "tags")
 			}
 			wantN := reflect.StructTag(tags["Name"]).Get(tn.key)
 			wantC := reflect.StructTag(tags["Children"]).Get(tn.key)
@@ -1014,10 +1040,14 @@ func ruleTAB6(w *World) []Ob {
 						src = "false"
 					}
 				}
+				rl := "grower-formats"
+				if f == "enabledValidation" {
+					rl = "grower-flag"
+				}
 				if okSrc {
-					l.ok(pp.FuncID(fn), construct, pp.InstrPos(st), "fed from parameter/constant "+src, true, "grower-fields")
+					l.ok(pp.FuncID(fn), construct, pp.InstrPos(st), "fed from parameter/constant "+src, true, rl)
 				} else {
-					l.bad(pp.FuncID(fn), construct, pp.InstrPos(st), "the grower's "+f+" is fed from "+src, "grower-fields")
+					l.bad(pp.FuncID(fn), construct, pp.InstrPos(st), "the grower's "+f+" is fed from "+src, rl)
 				}
 			})
 		}
@@ -1026,20 +1056,28 @@ func ruleTAB6(w *World) []Ob {
 	if fn := w.D().Func("gtree.newGrowerPipeline"); fn != nil {
 		p := w.D()
 		l.cfg = "D"
-		ok := false
+		okFmt, okFlag := false, false
 		allInstrs(fn, func(in ssa.Instruction) {
 			c, isC := in.(*ssa.Call)
 			if !isC || c.Common().StaticCallee() == nil || c.Common().StaticCallee().Name() != "newGrowerSimple" {
 				return
 			}
-			if len(c.Common().Args) == 3 && sameVar(c.Common().Args[0], fn.Params[0]) && sameVar(c.Common().Args[1], fn.Params[1]) && sameVar(c.Common().Args[2], fn.Params[2]) {
-				ok = true
+			if len(c.Common().Args) == 3 && sameVar(c.Common().Args[0], fn.Params[0]) && sameVar(c.Common().Args[1], fn.Params[1]) {
+				okFmt = true
+			}
+			if len(c.Common().Args) == 3 && sameVar(c.Common().Args[2], fn.Params[2]) {
+				okFlag = true
 			}
 		})
-		if ok {
-			l.ok(p.FuncID(fn), "pipeline grower built by the simple constructor", p.Pos(fn.Pos()), "newGrowerSimple(last, intermedial, enabledValidation) with the parameters in order", true, "grower-fields")
+		if okFmt {
+			l.ok(p.FuncID(fn), "pipeline grower gets the branch formats", p.Pos(fn.Pos()), "newGrowerSimple(last, intermedial, …) with the parameters in order", true, "grower-formats")
 		} else {
-			l.bad(p.FuncID(fn), "pipeline grower built by the simple constructor", p.Pos(fn.Pos()), "the pipeline grower no longer passes its three parameters, in order, to newGrowerSimple: branch strings or the dry-run validation flag are lost in massive mode", "grower-fields")
+			l.bad(p.FuncID(fn), "pipeline grower gets the branch formats", p.Pos(fn.Pos()), "the pipeline grower no longer passes its branch formats, in order, to newGrowerSimple", "grower-formats")
+		}
+		if okFlag {
+			l.ok(p.FuncID(fn), "pipeline grower gets the validation flag", p.Pos(fn.Pos()), "newGrowerSimple(…, enabledValidation)", true, "grower-flag")
+		} else {
+			l.bad(p.FuncID(fn), "pipeline grower gets the validation flag", p.Pos(fn.Pos()), "the pipeline grower drops the dry-run validation flag: in massive mode a dry run accepts names the real run rejects", "grower-flag")
 		}
 	}
 	// encode constants ↔ option ↔ encoder package
@@ -1566,4 +1604,27 @@ func isRangeLoopCond(c ssa.Value) bool {
 		}
 	}
 	return false
+}
+
+
+func customMarshalMethods(p *Prog, typeName string) []string {
+	pk := p.ModPkgs[modulePath]
+	if pk == nil {
+		return nil
+	}
+	obj := pk.Types.Scope().Lookup(typeName)
+	if obj == nil {
+		return nil
+	}
+	var out []string
+	for _, t := range []types.Type{obj.Type(), types.NewPointer(obj.Type())} {
+		ms := types.NewMethodSet(t)
+		for i := 0; i < ms.Len(); i++ {
+			n := ms.At(i).Obj().Name()
+			if strings.HasPrefix(n, "Marshal") || strings.HasPrefix(n, "Unmarshal") || n == "String" || n == "GoString" || n == "Format" || n == "IsZero" {
+				out = append(out, n)
+			}
+		}
+	}
+	return dedupSorted(out)
 }
